@@ -55,6 +55,8 @@ type Obligation struct {
 	Goal    string
 	// vacuity / reach checks expect "sat" instead of "unsat"
 	ExpectSat bool
+	PathOnly  []string // cover:exit: the assumptions without lemma instances (second query, without library axioms)
+	NoAxioms  bool
 	// terms whose model values are wanted on failure: label -> smt term
 	Watch map[string]string
 	// results
@@ -72,6 +74,7 @@ type Obligation struct {
 // (ExpectSat) passes unless the assumptions were refuted.
 func (o *Obligation) passed() bool {
 	if o.ExpectSat {
+		// "dead": refuted by the program and its contracts alone, without any lemma-library axiom (see smt.go)
 		return o.Status != "unsat" && o.Status != "error" && o.Status != ""
 	}
 	return o.Status == "unsat"
